@@ -94,7 +94,20 @@ CLAIMED["C15"] = dict(
     note="Trusted: the memory policy as the definition of 'allocation fails'; accessor coverage = what the text renderers/owned conversions touch. Many genuine defects are listed in known_findings.json (per source file of the panic site).",
     engine="seq-sim")
 
-NOT_YET = {p: "claimed in DESIGN.md; check under construction in this round (will move to checks when registered)" for p in ["C16"]}
+CLAIMED["C16"] = dict(
+    category="exploration", design="DESIGN.md §8 C16",
+    technique="deterministic simulation of the async twins on a driverless single-threaded tokio runtime with a scripted poll adversary (Pending, partial transfers, blocking-job completion delays); differential oracle vs the sync twin and the flat model",
+    text="Every async reader, writer and query twin runs inside async-sim: the underlying AsyncRead/AsyncWrite/AsyncSeek objects "
+         "return Pending or transfer partially as the plan says, the former spawn_blocking inflate/deflate jobs are gated tasks "
+         "whose completion order the plan decides, worker counts 1..8. Oracles: async BGZF writer output passes the independent "
+         "walker and decodes like the sync writer's; async BGZF reader histories (incl. seeks) equal the flat model; async "
+         "readers of 19 kinds yield the sync observation (headers, records, positions, errors); async writers decode like the "
+         "sync writers' output and are byte-identical for uncompressed formats; async queries equal sync queries; poll budget "
+         "and watchdog for liveness. Seeded search over poll schedules, not proof.",
+    note="Trusted: hook H2 only moves the blocking jobs onto the same runtime behind a gate; adversary fairness (flush Pending only while dirty, shutdown Pending once). Cancellation safety is not in the statement.",
+    engine="async-sim")
+
+NOT_YET = {p: "claimed in DESIGN.md; check under construction in this round (will move to checks when registered)" for p in []}
 
 NOT_APPLICABLE = {
     "C04": "pure function of (records, block layout, index geometry, region): no schedule, fault, crash point or history in the statement; input generation with a scan oracle is not deterministic simulation. Reader-state carry-over between seeks is decided in C02, delivery independence of queries in C12, corrupt indexes in C15.",
